@@ -67,6 +67,29 @@ func genCase(t *rapid.T, env *ev.Env) run.ProgCase {
 			{Kind: prog.OpDelete, B: 0, K: 1},
 			{Kind: prog.OpGC},
 		}
+		if rapid.IntRange(0, 2).Draw(t, "fragRepeat") == 1 {
+			// an object whose part list repeats one part id (identical chunk appended, or two
+			// identical multipart parts: dedup), moved between classes more than once, then a
+			// sibling with the same content outlives it (seeded defect S-C14-1: reference
+			// under-count of a repeated part id in a relabel-only transition)
+			c3 := cls("fragC")
+			build := []prog.Op{{Kind: prog.OpPut, B: 0, K: 0, Body: body, Class: a}, {Kind: prog.OpAppend, B: 0, K: 0, Body: body}}
+			if rapid.Bool().Draw(t, "fragRepeatMpu") {
+				build = []prog.Op{{Kind: prog.OpMpuCreate, B: 0, K: 0, Class: a},
+					{Kind: prog.OpMpuPart, Upload: prog.LastUpload, PartNo: 1, Body: body},
+					{Kind: prog.OpMpuPart, Upload: prog.LastUpload, PartNo: 2, Body: body},
+					{Kind: prog.OpMpuComplete, Upload: prog.LastUpload, Manifest: "ok"}}
+			}
+			frag = append(build,
+				prog.Op{Kind: prog.OpTransition, B: 0, K: 0, Class: b2},
+				prog.Op{Kind: prog.OpGC},
+				prog.Op{Kind: prog.OpTransition, B: 0, K: 0, Class: c3},
+				prog.Op{Kind: prog.OpGC},
+				prog.Op{Kind: prog.OpPut, B: 0, K: 1, Body: body, Class: c3},
+				prog.Op{Kind: prog.OpDelete, B: 0, K: 0},
+				prog.Op{Kind: prog.OpGC},
+			)
+		}
 		var kept []prog.Op
 		for i := range frag {
 			if rapid.IntRange(0, 7).Draw(t, "fragKeep") > 0 {
@@ -232,6 +255,9 @@ func runCase(env *ev.Env, c run.ProgCase) ev.Outcome {
 	if remapped {
 		o.Class("remapped-configuration")
 	}
+	if repeatedChunk(c.Ops) {
+		o.Class("object-repeating-one-chunk")
+	}
 	o.Count("part_rows_checked", partsChecked)
 	for k, v := range st.OKByKind {
 		o.Count("ok:"+k, v)
@@ -250,4 +276,20 @@ func TestC14(t *testing.T) {
 		Gen:         genCase,
 		Run:         runCase,
 	})
+}
+
+// repeatedChunk: the program builds an object from two identical chunks (put+append of
+// the same body, or two multipart parts with the same body).
+func repeatedChunk(ops []prog.Op) bool {
+	same := func(a, b *gen.BodySpec) bool { return a != nil && b != nil && *a == *b && a.Len > 0 }
+	for i := 1; i < len(ops); i++ {
+		p, q := ops[i-1], ops[i]
+		if p.Kind == prog.OpPut && q.Kind == prog.OpAppend && p.B == q.B && p.K == q.K && same(p.Body, q.Body) {
+			return true
+		}
+		if p.Kind == prog.OpMpuPart && q.Kind == prog.OpMpuPart && p.Upload == q.Upload && p.PartNo != q.PartNo && same(p.Body, q.Body) {
+			return true
+		}
+	}
+	return false
 }
